@@ -349,6 +349,11 @@ func runEffect(c *core.Ctx, keepEntry func(*ssa.Function) bool) {
 					if _, isAlloc := root.(*ssa.Alloc); isAlloc {
 						return
 					}
+					// assignment to a captured local variable of the enclosing function (res = append(res, …) inside a
+					// callback): the cell is that function's own local
+					if fv, isFV := root.(*ssa.FreeVar); isFV && freeVarIsLocalCell(fv) {
+						return
+					}
 				}
 				if fresh(root, 0) {
 					return
@@ -537,4 +542,39 @@ func lowersLength(v ssa.Value, d int) *ssa.Slice {
 		}
 	}
 	return nil
+}
+
+// freeVarIsLocalCell: every closure creation binds fv to a local variable (Alloc) of the enclosing function.
+func freeVarIsLocalCell(fv *ssa.FreeVar) bool {
+	cf := fv.Parent()
+	if cf == nil || cf.Parent() == nil {
+		return false
+	}
+	idx := -1
+	for i, q := range cf.FreeVars {
+		if q == fv {
+			idx = i
+		}
+	}
+	if idx < 0 {
+		return false
+	}
+	found, ok := false, true
+	sx.EachInstrDeep(cf.Parent(), func(_ *ssa.Function, in ssa.Instruction) {
+		mc, isMC := in.(*ssa.MakeClosure)
+		if !isMC || mc.Fn != ssa.Value(cf) || idx >= len(mc.Bindings) {
+			return
+		}
+		found = true
+		switch b := mc.Bindings[idx].(type) {
+		case *ssa.Alloc:
+		case *ssa.FreeVar:
+			if !freeVarIsLocalCell(b) {
+				ok = false
+			}
+		default:
+			ok = false
+		}
+	})
+	return found && ok
 }
